@@ -810,7 +810,7 @@ int main(int argc, char** argv)
     // axis order: the (even-sized) axes that predict the cost of a run come first (slowest), the odd-sized ones last,
     // so that `index % 16` spreads the expensive corner (bundle size 100, large n) evenly over the shards
     lattice_t lat;
-    size_t    ax_bs = 0, ax_ps = 0, ax_s = 0;
+    size_t    ax_bs = 0, ax_s = 0;
     if (!ell)
     {
         ax_bs = lat.axis("bundle::max_size", bsizes.size(), jarr_num(bsizes));
@@ -819,21 +819,37 @@ int main(int argc, char** argv)
     const auto ax_k  = lat.axis("norm", KINDS.size(), jarr_str(KINDS));
     const auto ax_mu = lat.axis("mu", MUS.size(), jarr_num(MUS));
     const auto ax_a  = lat.axis("A", ANAMES.size(), jarr_str(ANAMES));
-    const auto ax_u  = lat.axis("x0=xstar+4u", UNAMES.size(), jarr_str(UNAMES));
+    // (x0 direction, csearch / prox parameter set) pairs: the alternative parameter sets (thorough tier) are combined
+    // with the two diagonal starting directions only (from x* + 4 e1 / x* - 4 en a problem with diagonal A is 1-D)
+    std::vector<std::pair<int, int>> starts;
+    std::vector<std::string>         start_names;
+    for (uint64_t ps = 0; ps < (ell ? 1U : npsets); ++ps)
+    {
+        for (int u_i = 0; u_i < 4; ++u_i)
+        {
+            if (ps == 0 || u_i >= 2 || args.geti("all_pairs", 0) != 0)
+            {
+                starts.emplace_back(u_i, static_cast<int>(ps));
+                start_names.push_back(ell ? UNAMES[static_cast<size_t>(u_i)]
+                                          : "(" + UNAMES[static_cast<size_t>(u_i)] + "; " + PSETS[ps].substr(0, PSETS[ps].find('(')) + ")");
+            }
+        }
+    }
+    const auto ax_u  = lat.axis(ell ? "x0=xstar+4u" : "(x0=xstar+4u; csearch/prox parameters)", starts.size(), jarr_str(start_names));
     const auto ax_xs = lat.axis("xstar", XSNAMES.size(), jarr_str(XSNAMES));
     const auto ax_b  = lat.axis("(epsilon,max_evals)", budgets.size(), jarr_str(budget_names));
     if (!ell)
     {
-        ax_ps = lat.axis("csearch/prox parameters", npsets,
-                         jarr_str(std::vector<std::string>(PSETS.begin(), PSETS.begin() + static_cast<long>(npsets))));
-        ax_s  = lat.axis("solver", BSOLVERS.size(), jarr_str(BSOLVERS));
+        ax_s = lat.axis("solver", BSOLVERS.size(), jarr_str(BSOLVERS));
+        r.axis("bundle.parameter_sets", jarr_str(std::vector<std::string>(PSETS.begin(), PSETS.begin() + static_cast<long>(npsets))));
     }
     lat.describe(r, stage + ".");
     r.axis(stage + ".function", jstr("f(x) = ||A'(x-x*)||_p + (mu/2)||x-x*||^2, A' = A for p=1 and sqrt(n)*A for p=inf "
                                      "(sharp: f(x)-f* >= ||x-x*||_2, checked by the self-test), f* = 0; sub-gradient: "
                                      "A'^T sign(r) with sign(0)=0 (p=1), sign(r_k) row_k for the first arg-max k (p=inf)"));
     r.axis(stage + ".n=1", jstr("at n=1 the duplicates (A in {diag, Givens} = I, xstar (1..n)*3/n = 3, u in {ones, "
-                                "alternating} = e1) are skipped, not counted"));
+                                "alternating} = e1) are skipped, not counted (u = ones stands for e1 with the "
+                                "alternative parameter sets)"));
     if (ell)
     {
         r.axis("ellipsoid.R", jnum(ELL_R));
@@ -860,13 +876,13 @@ int main(int argc, char** argv)
         c.mu_i      = static_cast<int>(d[ax_mu]);
         c.a_i       = static_cast<int>(d[ax_a]);
         c.xs_i      = static_cast<int>(d[ax_xs]);
-        c.u_i       = static_cast<int>(d[ax_u]);
+        c.u_i       = starts[d[ax_u]].first;
+        c.pset      = starts[d[ax_u]].second;
         c.eps       = budgets[d[ax_b]].first;
         c.max_evals = budgets[d[ax_b]].second;
         if (!ell)
         {
             c.bsize  = bsizes[d[ax_bs]];
-            c.pset   = static_cast<int>(d[ax_ps]);
             c.solver = BSOLVERS[d[ax_s]];
         }
         return c;
@@ -972,7 +988,8 @@ int main(int argc, char** argv)
             const auto fname = KINDS[static_cast<size_t>(c.kind)] + (c.mu_i != 0 ? "+quad" : "");
             char epsbuf[32];
             std::snprintf(epsbuf, sizeof(epsbuf), "%g", c.eps);
-            r.violation(c.solver + ":" + v.what + ":eps=" + epsbuf + ":" + fname, tag,
+            const auto params = ell ? std::string() : ":params=" + PSETS[static_cast<size_t>(c.pset)].substr(0, PSETS[static_cast<size_t>(c.pset)].find('('));
+            r.violation(c.solver + ":" + v.what + ":eps=" + epsbuf + ":" + fname + params, tag,
                         jobj({{"case", describe()},
                               {"status", jstr(status_name(res.status))},
                               {"x", jarr_num(res.x)},
@@ -995,7 +1012,7 @@ int main(int argc, char** argv)
     uint64_t since_median = 0;
     for_each_case(lat, r, "run", [&](const uint64_t index, const std::vector<uint64_t>& d) {
         const auto c = decode(d);
-        if (c.n == 1 && (c.a_i >= 2 || c.xs_i == 2 || c.u_i >= 2))
+        if (c.n == 1 && (c.a_i >= 2 || c.xs_i == 2 || c.u_i == 3 || (c.u_i == 2 && c.pset == 0)))
         {
             r.outcome("skipped:duplicate-at-n=1");
             return;
